@@ -428,9 +428,15 @@ OPS = ('match', 'imatch', 'abandon', 'kill', 'reset', 'is_aborted', 'create', 'c
 def sequences(ctx, tr, maxlen):
     """All call sequences up to maxlen on one object vs the sequential model."""
     root = tr.root
-    w0 = fresh(root, '*', '', WM.RECURSIVE | WM.HIDDEN)
-    R = w0.match()
-    skipped = w0.get_skipped()
+    # a file pattern under which the full run both returns and skips something (the skipped counter must be observable)
+    spat = '*'
+    for cand in ('a*|b*', '*a*', '!a*', '*.d|a|b', '?', '*'):
+        w0 = fresh(root, cand, '', WM.RECURSIVE | WM.HIDDEN)
+        R = w0.match()
+        skipped = w0.get_skipped()
+        spat = cand
+        if R and skipped:
+            break
     idx = 0
     for n in range(1, maxlen + 1):
         for seq in itertools.product(OPS, repeat=n):
@@ -439,7 +445,7 @@ def sequences(ctx, tr, maxlen):
                 continue
             if ctx.out_of_time():
                 return
-            w = fresh(root, '*', '', WM.RECURSIVE | WM.HIDDEN)
+            w = fresh(root, spat, '', WM.RECURSIVE | WM.HIDDEN)
             aborted = False
             pending = []
             runs_done = 0
